@@ -1,8 +1,8 @@
 SPECIFICATION Spec
 CONSTANTS
-  NSym = 4
+  NSym = 3
   MinLen = 1
-  MaxLen = 6
+  MaxLen = 5
   Mode = "prefix"
   Stems = "all"
 INVARIANTS Found SharesGram ScoreSafe
